@@ -135,7 +135,7 @@ var harnesses = map[string]*Harness{
 var checks = []Check{
 	{
 		Property: "C14", Harness: "h4chain", Level: "exploration",
-		Quick:      tierCfg{budget: 40, shrink: 20},
+		Quick:      tierCfg{budget: 150, maxRuns: 1500, shrink: 20},
 		Thorough:   tierCfg{budget: 900, shrink: 60},
 		MaxWorkers: 6, RunTimeoutS: 120,
 		Rule:         "one evaluation = one real fuzz-protocol session (SetState with a generated genesis export and ancestry, ImportBlock with 1-3 author-built blocks incl. tickets/preimages/disputes, GetState, State, StateRoot, PeerInfo, Error) whose frames are damaged in flight 6-15 times (bit flips, byte insert/delete, length-prefix edits to 0/1/2/2^31/2^32-1/+1000, truncation + close, garbage frame, unknown message type, 0xFF runs over inner length prefixes) and delivered in tape-chosen fragments to the real stream reader Message.ReadFrom; non-trivial = session of >= 6 frames; distinct = decision tape hash",
@@ -150,7 +150,7 @@ var checks = []Check{
 	},
 	{
 		Property: "C26", Harness: "h4chain", Level: "exploration",
-		Quick:        tierCfg{budget: 50, shrink: 100},
+		Quick:        tierCfg{budget: 150, maxRuns: 60, shrink: 100},
 		Thorough:     tierCfg{budget: 1200, shrink: 1000},
 		RunTimeoutS:  240,
 		Rule:         "one evaluation = one generated history: synthetic tiny genesis (6 trivial-seed validators, 1-3 services with storage / stored / solicited preimages, authorizer pools with duplicates), an author-built block tree (slot gaps across epoch boundaries, tickets, preimages, disputes with real Ed25519 votes, forks), then a delivery schedule with up to 8 faults: a block mutated so that it is rejected at a chosen STF stage (header, disputes, safrole, seal/entropy, extrinsic), re-delivery of the rejected block, a child of the rejected block, a second different invalid block, restart from exported state, GetState of an unknown hash. The schedule is run twice on fresh incarnations: N2 without the blocks a clean node rejects, N1 with them; N1 must answer every valid delivery exactly like N2 (accept/reject, root, GetState) and GetState(head) must be unchanged after every rejection; the same valid sequence on two fresh nodes must give identical roots. non-trivial = at least 3 valid blocks; distinct = decision tape hash",
@@ -165,7 +165,7 @@ var checks = []Check{
 	},
 	{
 		Property: "C17", Harness: "h4chain", Level: "exploration",
-		Quick:        tierCfg{budget: 50, shrink: 100},
+		Quick:        tierCfg{budget: 150, maxRuns: 60, shrink: 100},
 		Thorough:     tierCfg{budget: 1200, shrink: 1000},
 		RunTimeoutS:  240,
 		Rule:         "one evaluation = one generated history: synthetic tiny genesis (6 trivial-seed validators, 1-3 services with storage / stored / solicited preimages, authorizer pools with duplicates), an author-built block tree (slot gaps across epoch boundaries, tickets, preimages, disputes with real Ed25519 votes, forks), every exported state (GetState after every accepted block, on fresh incarnations) is parsed back and re-serialised together with its raw entries and must give the exported key-value set; restarts: SetState with the export in a permuted key order (with or without ancestry) must return the root of the exported set and export the same set again, and the node must then continue like the node that was not restarted (C26 oracle)",
@@ -180,7 +180,7 @@ var checks = []Check{
 	},
 	{
 		Property: "C23", Harness: "h4chain", Level: "exploration",
-		Quick:        tierCfg{budget: 50, shrink: 100},
+		Quick:        tierCfg{budget: 150, maxRuns: 60, shrink: 100},
 		Thorough:     tierCfg{budget: 1200, shrink: 1000},
 		RunTimeoutS:  240,
 		Rule:         "one evaluation = one generated history: synthetic tiny genesis (6 trivial-seed validators, 1-3 services with storage / stored / solicited preimages, authorizer pools with duplicates), an author-built block tree (slot gaps across epoch boundaries, tickets, preimages, disputes with real Ed25519 votes, forks), for every block a fresh node accepts, the reference ticket accumulator (lowest identifiers of carried-over and new tickets, strictly increasing, at most E, reset at an epoch change) and the reference slot-sealer sequence (unchanged within an epoch; outside-in of a full accumulator when the epoch advances by one and the prior slot index is at or after the submission end; otherwise entropy-derived fallback keys) are compared with the exported state; blocks with unsorted, duplicated, over-attempt or late tickets must be rejected by a fresh node",
@@ -195,7 +195,7 @@ var checks = []Check{
 	},
 	{
 		Property: "C25", Harness: "h4chain", Level: "exploration",
-		Quick:        tierCfg{budget: 50, shrink: 100},
+		Quick:        tierCfg{budget: 150, maxRuns: 60, shrink: 100},
 		Thorough:     tierCfg{budget: 1200, shrink: 1000},
 		RunTimeoutS:  240,
 		Rule:         "one evaluation = one generated history: synthetic tiny genesis (6 trivial-seed validators, 1-3 services with storage / stored / solicited preimages, authorizer pools with duplicates), an author-built block tree (slot gaps across epoch boundaries, tickets, preimages, disputes with real Ed25519 votes, forks), for every accepted block the reference recent-history transition (previous newest entry gets the block's parent state root; new entry with header hash, zero state root, reported packages sorted by hash and the super-peak of the Keccak mountain range after appending the commitment of the block's accumulation outputs; at most H entries, oldest dropped) and the reference range peaks are compared with the exported state",
@@ -210,7 +210,7 @@ var checks = []Check{
 	},
 	{
 		Property: "C34", Harness: "h4chain", Level: "exploration",
-		Quick:        tierCfg{budget: 50, shrink: 100},
+		Quick:        tierCfg{budget: 150, maxRuns: 60, shrink: 100},
 		Thorough:     tierCfg{budget: 1200, shrink: 1000},
 		RunTimeoutS:  240,
 		Rule:         "one evaluation = one generated history: synthetic tiny genesis (6 trivial-seed validators, 1-3 services with storage / stored / solicited preimages, authorizer pools with duplicates), an author-built block tree (slot gaps across epoch boundaries, tickets, preimages, disputes with real Ed25519 votes, forks), for every accepted block the reference validator records (author: +1 block, +tickets, +preimages, +preimage octets; assurers +1; guarantors +1; at an epoch change current becomes previous and is reset), service records (provided count/size from the preimage extrinsic) and all-zero core records when nothing is reported or available are compared with the exported state",
@@ -225,7 +225,7 @@ var checks = []Check{
 	},
 	{
 		Property: "C35", Harness: "h4chain", Level: "exploration",
-		Quick:        tierCfg{budget: 50, shrink: 100},
+		Quick:        tierCfg{budget: 150, maxRuns: 60, shrink: 100},
 		Thorough:     tierCfg{budget: 1200, shrink: 1000},
 		RunTimeoutS:  240,
 		Rule:         "one evaluation = one generated history: synthetic tiny genesis (6 trivial-seed validators, 1-3 services with storage / stored / solicited preimages, authorizer pools with duplicates), an author-built block tree (slot gaps across epoch boundaries, tickets, preimages, disputes with real Ed25519 votes, forks), dispute extrinsics carry verdicts of the three defined outcomes (2/3+1, 0, 1/3 positive votes) with real Ed25519 votes by current or previous-epoch validators and the culprits / faults they require; for every accepted block the reference judgement sets (pairwise disjoint, sorted, grown by exactly the new verdicts) and offender set (sorted, only growing) are compared with the exported state; a verdict with any other vote count must be rejected by a fresh node",
@@ -240,7 +240,7 @@ var checks = []Check{
 	},
 	{
 		Property: "C31", Harness: "h4chain", Level: "exploration",
-		Quick:        tierCfg{budget: 50, shrink: 100},
+		Quick:        tierCfg{budget: 150, maxRuns: 60, shrink: 100},
 		Thorough:     tierCfg{budget: 1200, shrink: 1000},
 		RunTimeoutS:  240,
 		Rule:         "one evaluation = one generated history: synthetic tiny genesis (6 trivial-seed validators, 1-3 services with storage / stored / solicited preimages, authorizer pools with duplicates), an author-built block tree (slot gaps across epoch boundaries, tickets, preimages, disputes with real Ed25519 votes, forks), preimage extrinsics provide solicited-but-unprovided blobs; blocks with unsorted, duplicated, unsolicited or already-provided entries must be rejected by a fresh node; every accepted preimage must be stored with the block's slot as the single start of its availability",
@@ -255,7 +255,7 @@ var checks = []Check{
 	},
 	{
 		Property: "C24", Harness: "h4chain", Level: "exploration",
-		Quick:        tierCfg{budget: 50, shrink: 100},
+		Quick:        tierCfg{budget: 150, maxRuns: 60, shrink: 100},
 		Thorough:     tierCfg{budget: 1200, shrink: 1000},
 		RunTimeoutS:  240,
 		Rule:         "one evaluation = one generated history: synthetic tiny genesis (6 trivial-seed validators, 1-3 services with storage / stored / solicited preimages, authorizer pools with duplicates), an author-built block tree (slot gaps across epoch boundaries, tickets, preimages, disputes with real Ed25519 votes, forks), for every accepted block the reference pool transition per core (prior pool minus the leftmost occurrence of each authorizer used by that core's guarantees, plus the queue entry selected by the slot, last O kept) is compared with the exported state",
@@ -270,7 +270,7 @@ var checks = []Check{
 	},
 	{
 		Property: "C22", Harness: "h2sched", Level: "exploration",
-		Quick:        tierCfg{budget: 50, shrink: 150},
+		Quick:        tierCfg{budget: 150, maxRuns: 300, shrink: 150},
 		Thorough:     tierCfg{budget: 1200, shrink: 1500},
 		RunTimeoutS:  120,
 		Rule:         "one evaluation = one generated accumulation round (3-8 services with generated code that stores the encoding of all items it is given, in the order presented, and emits 0-20 transfers each - in two runs of three more than a dozen transfers from several senders converge on one receiver; 1-6 work reports; privileged services that re-bless / re-assign) executed 1+5 times (1+12 thorough) through the real OuterAccumulation under different goroutine schedules, types.MaxWorkers in {1,2,3,16} and map iteration orders; non-trivial = >= 3 services and some receiver gets >= 2 transfers; distinct = hash of the baseline posterior state",
@@ -285,7 +285,7 @@ var checks = []Check{
 	},
 	{
 		Property: "C10", Harness: "h3acc", Level: "fault_enumeration",
-		Quick:        tierCfg{budget: 40, shrink: 300},
+		Quick:        tierCfg{budget: 150, maxRuns: 150, shrink: 300},
 		Thorough:     tierCfg{budget: 900, shrink: 3000},
 		Rule:         "one evaluation = one generated accumulate program (1-40 host calls drawn from write/read/info/lookup/new/upgrade/transfer/eject/query/solicit/forget/yield/provide/checkpoint/bless/assign/designate/gas/unknown, ending in halt with 0/32/other-length output, trap or a gas-burning loop) on a generated partial state, executed with unlimited gas and then with a tape-chosen gas limit (one run in ten: every limit 0..need+1); non-trivial = at least 3 observed host calls; distinct = hash of (program shape, observed call results)",
 		Real:         []string{"PVM.Psi_A end to end: standard-program initialiser, block engine, every accumulate and general host call (real functions reached through wrappers placed in the exported PVM.AccumulateOmegas slice), checkpoint/collapse functions, deep copies", "internal/service_account threshold/footprint helpers", "internal/utilities/merklization raw key constructors"},
@@ -299,7 +299,7 @@ var checks = []Check{
 	},
 	{
 		Property: "C08", Harness: "h3acc", Level: "exploration",
-		Quick:        tierCfg{budget: 40, shrink: 300},
+		Quick:        tierCfg{budget: 150, maxRuns: 700, shrink: 300},
 		Thorough:     tierCfg{budget: 900, shrink: 3000},
 		Rule:         "as C10; after every completed host call the exact (big-integer) sum of all balances plus deferred-transfer amounts in context X is compared with the sum before it, and the exact per-call movement is checked (transfer: amount into a deferred transfer; creation: the new account's threshold out of the creator; ejection: the ejected balance to the caller; CASH: nothing changes; other calls: no balance changes); amounts/lengths are aimed at balance-threshold +-1, total balance +-1 and 2^32/2^64 edges",
 		Real:         []string{"PVM.Psi_A end to end: standard-program initialiser, block engine, every accumulate and general host call (real functions reached through wrappers placed in the exported PVM.AccumulateOmegas slice), checkpoint/collapse functions, deep copies", "internal/service_account threshold/footprint helpers", "internal/utilities/merklization raw key constructors"},
@@ -313,7 +313,7 @@ var checks = []Check{
 	},
 	{
 		Property: "C09", Harness: "h3acc", Level: "exploration",
-		Quick:        tierCfg{budget: 40, shrink: 300},
+		Quick:        tierCfg{budget: 150, maxRuns: 700, shrink: 300},
 		Thorough:     tierCfg{budget: 900, shrink: 3000},
 		Rule:         "as C10; after every completed host call, for every account, the change of the recorded item/octet counts must equal the change of the counts derived from its dictionary entries plus attributable raw key-value entries; a call returning FULL must leave the whole context byte-identical; the threshold reported by info must equal max(0, B_S+B_I*i+B_L*o-f) in big integers whenever that value fits 64 bits (arms with recorded item counts around 2^32/10 and 2^32, octets near 2^64 and gratis offsets around the raw threshold)",
 		Real:         []string{"PVM.Psi_A end to end: standard-program initialiser, block engine, every accumulate and general host call (real functions reached through wrappers placed in the exported PVM.AccumulateOmegas slice), checkpoint/collapse functions, deep copies", "internal/service_account threshold/footprint helpers", "internal/utilities/merklization raw key constructors"},
@@ -327,7 +327,7 @@ var checks = []Check{
 	},
 	{
 		Property: "C04", Harness: "h3acc", Level: "fault_enumeration",
-		Quick:        tierCfg{budget: 40, shrink: 300},
+		Quick:        tierCfg{budget: 150, maxRuns: 50, shrink: 300},
 		Thorough:     tierCfg{budget: 900, shrink: 3000},
 		Rule:         "as C10, with one run in three an exhaustive sweep over every gas limit 0..need+1 of a short program; checked: each host call charges exactly 10 (transfer additionally its gas argument on success), the instructions between two observed calls charge exactly 1 each, with limit g the run stops out-of-gas exactly where the cost model says, the observed calls and contexts are a prefix of the unlimited run's, reported usage is in [0, limit] (also for limits >= 2^63) and equals limit minus remaining gas on halt",
 		Real:         []string{"PVM.Psi_A end to end: standard-program initialiser, block engine, every accumulate and general host call (real functions reached through wrappers placed in the exported PVM.AccumulateOmegas slice), checkpoint/collapse functions, deep copies", "internal/service_account threshold/footprint helpers", "internal/utilities/merklization raw key constructors"},
@@ -341,7 +341,7 @@ var checks = []Check{
 	},
 	{
 		Property: "C16", Harness: "h5cache", Level: "exploration",
-		Quick:        tierCfg{budget: 40, shrink: 400},
+		Quick:        tierCfg{budget: 150, maxRuns: 2000, shrink: 400},
 		Thorough:     tierCfg{budget: 900, shrink: 3000},
 		Rule:         "one evaluation = one history (<= 80 quick / 200 thorough steps) over an evolving entry set on one live ChainState: add / remove / change value keeping length / flip embedded<->hashed / re-insert removed key / clear cache / reset instance / change capacity / compute root (cached vs uncached, sometimes in permuted order); keys share long bit prefixes; capacity knob in {1,2,3,7,64,600}; non-trivial = >= 3 root computations over a pool of >= 3 keys; distinct = decision tape hash",
 		Real:         []string{"internal/blockchain.ChainState.ComputeStateRootWithCache / ClearKeyLevelCache / ResetInstance, KeyLevelCache", "internal/utilities/merklization (cached and uncached walks)"},
@@ -355,7 +355,7 @@ var checks = []Check{
 	},
 	{
 		Property: "C28", Harness: "h1tel", Level: "exploration",
-		Quick:        tierCfg{budget: 60, shrink: 300},
+		Quick:        tierCfg{budget: 150, maxRuns: 6000, shrink: 300},
 		Thorough:     tierCfg{budget: 1200, shrink: 3000},
 		RunTimeoutS:  120,
 		Rule:         "one evaluation = one simulated life of the real telemetry client: 1-6 emitter goroutines x 1-40 emit calls (4 flavours, follow-ups with fresh/stale/invalid parents), optional early Close, tape-chosen schedule (one goroutine released at a time at instrumented seams), simulated clock, dialer and connection faults; non-trivial = at least one connection delivered at least one event and >= 4 emit calls were made; distinct = distinct hash of (decision tape, connections, delivered events, steps)",
@@ -370,7 +370,7 @@ var checks = []Check{
 	},
 	{
 		Property: "C27", Harness: "h5db", Level: "exploration",
-		Quick:    tierCfg{budget: 40, shrink: 400},
+		Quick:    tierCfg{budget: 150, maxRuns: 25000, shrink: 400},
 		Thorough: tierCfg{budget: 900, shrink: 3000},
 		Rule:     "one evaluation = one tape-generated operation history (puts, deletes, gets, batches committed/discarded/abandoned, iterators with prefix/start pairs, caller-buffer scribbling after every call) replayed against the three real providers and a sorted-map model; non-trivial = the history contained at least one iterator and one batch commit and >= 8 operations; distinct = distinct hash of (operation sequence incl. arguments)",
 		Real:     []string{"internal/database/provider/memory", "internal/database/provider/pebble (real Pebble engine on its in-memory vfs)", "internal/database/provider/redis (real go-redis client)"},
